@@ -44,6 +44,13 @@ META = {
         assumptions=COMMON_ASSUME + ["expected events come from the token generator (fields the client controls: see DESIGN.md appendix A); replies are not judged here"],
         deadline_quick=600, deadline_thorough=3000,
     ),
+    "C03": dict(
+        rule="services ldap, ftp, smtp, telnet, redis, memcached, http (TCP) and tftp (UDP) behind the real server.New+Run; scripted sessions with distinct client addresses whose every argument carries a session tag; a step = dial / one client write followed by quiescence / close. Enumerated: all interleavings of 2 sessions x 5 steps for every ordered pair of scripts (252 each), all interleavings with <=6 context switches (thorough: all 34,650) of 3 sessions x 4 steps, sequential histories of N in {1,2,3,5} earlier sessions followed by every probe script. Oracle (differential): each session's reply transcript and canonical event list equal those of the same script run alone on a fresh server; session ids are one per connection and unshared; an event carrying a session's tag carries that session's source address. Distinct = distinct joint observations.",
+        bounds_quick="2 sessions all interleavings; 3 sessions <=6 context switches over 2 scripts; histories N<=5",
+        bounds_thorough="2 sessions all interleavings; 3 sessions all interleavings over all scripts; histories N<=5",
+        assumptions=COMMON_ASSUME + ["step granularity: the services are quiescent between steps; finer-grained schedules are covered by the race pass of C01"],
+        deadline_quick=900, deadline_thorough=3400,
+    ),
 }
 
 NOT_APPLICABLE = {}
